@@ -382,6 +382,10 @@ func init() {
 				cs = append(cs, &c02Case{Main: strings.Repeat("(", depth) + "a." + strings.Repeat(")", depth) + "\nb\n", Lane: "deep-nesting"},
 					&c02Case{Main: "##!+ i\n" + strings.Repeat("(?:x|(", depth) + "a.b" + strings.Repeat("))", depth) + "\n", Lane: "deep-nesting"})
 			}
+			// a leading group that holds an escaped parenthesis while the expression ends in another group; a trailing literal backslash
+			for _, m := range []string{"(?:foo\\(|bar)c(?:dd|ee)\n", "##!^ (?:eval\\(|system)\n##!$ (?:dd|ee)\nc\n", "(?:a\\(b\\(|c)d(?:e|f)\n", "a\\\\\n", "c:\\\\windows\\\\\n", "##!$ \\\\\nfoo\nbar\n", "##!+ i\nx\\\\\n", "(?:q\\)|r)s(?:t|u)\n"} {
+				cs = append(cs, &c02Case{Main: m, Lane: "escaped-paren-and-trailing-backslash", Update: true})
+			}
 			// author-written flag groups in programs without any of ^ $ .
 			for _, m := range []string{"x(?i:abc)\n", "(?i)select\n", "##!+ i\nfoo(?i:bar)|baz\n", "(?s:a)b\nc\n", "##!> assemble\n  (?i:k)\n  l\n##!<\n"} {
 				cs = append(cs, &c02Case{Main: m, Lane: "author-flag-groups", Update: true})
